@@ -60,4 +60,75 @@ func TestMakeReplays(t *testing.T) {
 	}
 }
 
-var extraReplays []func(t *testing.T)
+var extraReplays = []func(t *testing.T){makeC02Replays, makeC08Replays}
+
+func uv(x uint64) *value.Value { return &value.Value{K: value.Uint, U: x} }
+
+func onePkg(defs ...*model.Def) *model.Package {
+	return &model.Package{Namespace: "Mdl", DirName: "main", NumFiles: 1, Defs: defs}
+}
+
+func proto(fields ...model.Field) *model.Def {
+	return &model.Def{Kind: model.DProtocol, Name: "Proto0", Fields: fields}
+}
+
+func makeC02Replays(t *testing.T) {
+	// zero-dimensional dynamic array, Python NDJSON reader
+	c := RTCase{Leg: "python", Pkg: onePkg(proto(model.Field{Name: "a", Type: model.DynArray(model.Prim("int32"))})),
+		Runs: []RTRun{{Proto: "Proto0", Steps: []value.StepValues{{Value: &value.Value{K: value.Array, Shape: []uint64{}, Items: []*value.Value{iv(5)}}}}}}}
+	writeReplay(t, "C02", "python-ndjson-zero-dim-array", "c02", "Python NDJSON reader fails on {\"shape\":[],\"data\":[5]}", c)
+
+	// array of records: dtype check in the Python NDJSON writer
+	rec := &model.Def{Kind: model.DRecord, Name: "Rec0", Fields: []model.Field{{Name: "x", Type: model.Prim("int8")}, {Name: "y", Type: model.Prim("float64")}}}
+	c = RTCase{Leg: "python", Pkg: onePkg(rec, proto(model.Field{Name: "a", Type: model.DynArray(model.Ref("Mdl", "Rec0"))})),
+		Runs: []RTRun{{Proto: "Proto0", Steps: []value.StepValues{{Value: &value.Value{K: value.Array, Shape: []uint64{1}, Items: []*value.Value{{K: value.Record, Items: []*value.Value{iv(1), value.NewFloat(2)}}}}}}}}}
+	writeReplay(t, "C02", "python-ndjson-struct-array-dtype", "c02", "Python NDJSON writer rejects the aligned structured dtype produced by the binary reader", c)
+
+	// enum value outside the declared symbols inside an array
+	en := &model.Def{Kind: model.DEnum, Name: "En0", ListValues: true, Values: []model.EnumVal{{Symbol: "a"}, {Symbol: "b", Value: 1, UValue: 1}}}
+	c = RTCase{Leg: "python", Pkg: onePkg(en, proto(model.Field{Name: "a", Type: model.DynArray(model.Ref("Mdl", "En0"))})),
+		Runs: []RTRun{{Proto: "Proto0", Steps: []value.StepValues{{Value: &value.Value{K: value.Array, Shape: []uint64{2}, Items: []*value.Value{iv(1), iv(77)}}}}}}}
+	writeReplay(t, "C02", "python-ndjson-unknown-enum-in-array", "c02", "np.int32(77) is not a valid En0", c)
+
+	// flags next to a number in an untagged union
+	fl := &model.Def{Kind: model.DFlags, Name: "Fl0", ListValues: true, Values: []model.EnumVal{{Symbol: "a", Value: 1, UValue: 1}, {Symbol: "b", Value: 2, UValue: 2}}}
+	u := &model.Type{Kind: model.KUnion, Cases: []*model.Type{model.Ref("Mdl", "Fl0"), model.Prim("float32")}, Tags: []string{"Fl0", "float32"}}
+	c = RTCase{Pkg: onePkg(fl, proto(model.Field{Name: "u", Type: u})),
+		Runs: []RTRun{{Proto: "Proto0", Steps: []value.StepValues{{Value: &value.Value{K: value.Union, Case: 0, Items: []*value.Value{iv(64)}}}}}}}
+	writeReplay(t, "C02", "flags-number-union-untagged", "c02", "[Fl0, float32] is written untagged; the flags value 64 (no declared symbol) is written as the number 64 and read back as float32", c)
+
+	// generic union with a type-parameter case
+	g := &model.Def{Kind: model.DRecord, Name: "Gen0", TypeParams: []string{"U"}, Fields: []model.Field{{Name: "u", Type: &model.Type{Kind: model.KUnion, ExplicitTags: true,
+		Cases: []*model.Type{model.Prim("uint8"), model.Param("U")}, Tags: []string{"small", "other"}}}}}
+	c = RTCase{Pkg: onePkg(g, proto(model.Field{Name: "g", Type: model.Ref("Mdl", "Gen0", model.Prim("int32"))})),
+		Runs: []RTRun{{Proto: "Proto0", Steps: []value.StepValues{{Value: &value.Value{K: value.Record, Items: []*value.Value{{K: value.Union, Case: 1, Items: []*value.Value{iv(5)}}}}}}}}}
+	writeReplay(t, "C02", "generic-union-param-case-untagged", "c02", "Gen0<int32>.u = other:5 is written as 5 and read back as small:5", c)
+}
+
+func makeC08Replays(t *testing.T) {
+	man := "cpp:\n  sourcesOutputDir: ../out/cpp\n  overrideArrayHeader: verif_ndarray.h\n  generateHDF5: false\n  generateCMakeLists: false\npython:\n  outputDir: ../out/py\nmatlab:\n  outputDir: ../out/m\n"
+	for _, pw := range [][2]string{{"tag", "none"}, {"member", "self"}, {"member", "other"}, {"namespace", "Class"}, {"namespace", "Datetime"}, {"namespace", "Binary"}, {"namespace", "Time"}, {"type", "Union"}, {"type", "Version"}} {
+		c := C08Case{Kind: "model", Pkg: sweepModel(pw[0], pw[1]), Compile: true, Manifest: man, Hostile: []string{pw[0] + ":" + pw[1]}}
+		writeReplay(t, "C08", "unescaped-identifier-"+pw[0]+"-"+pw[1], "c08", "identifier not escaped in a target language", c)
+	}
+	p := onePkg(&model.Def{Kind: model.DRecord, Name: "Rec0", Fields: []model.Field{{Name: "fooBar", Type: model.Prim("int32")}, {Name: "fooBAR", Type: model.Prim("int32")}}},
+		proto(model.Field{Name: "r", Type: model.Ref("Mdl", "Rec0")}))
+	writeReplay(t, "C08", "case-conversion-collision", "c08", "fooBar and fooBAR both become foo_bar", C08Case{Kind: "model", Pkg: p, Compile: true, Manifest: man, Pairs: []string{"fooBar/fooBAR"}})
+	writeReplay(t, "C08", "init-invalid-namespace", "c08", "yardl init foo.bar writes a namespace that validate rejects", C08Case{Kind: "init", InitName: "foo.bar"})
+	p = onePkg(proto(model.Field{Name: "v", Type: model.Vector(model.Prim("bool"))}))
+	writeReplay(t, "C08", "cpp-vector-of-bool", "c08", "std::vector<bool> in generated C++", C08Case{Kind: "model", Pkg: p, Compile: true, Manifest: man})
+	p = onePkg(&model.Def{Kind: model.DAlias, Name: "Al0", TypeParams: []string{"T"}, Type: model.Param("T")},
+		&model.Def{Kind: model.DRecord, Name: "Rec0", Fields: []model.Field{{Name: "a", Type: model.Ref("Mdl", "Al0", model.Prim("float64"))}}},
+		proto(model.Field{Name: "r", Type: model.Ref("Mdl", "Rec0")}))
+	writeReplay(t, "C08", "python-generic-identity-alias", "c08", "Al0<T>: T", C08Case{Kind: "model", Pkg: p, Compile: true, Manifest: man})
+	p = onePkg(proto(model.Field{Name: "m", Type: model.Map(model.Prim("time"), model.Prim("int32"))}))
+	writeReplay(t, "C08", "cpp-map-key-without-hash", "c08", "time->int does not compile in C++", C08Case{Kind: "model", Pkg: p, Compile: true, Manifest: man})
+	un2 := &model.Type{Kind: model.KUnion, ExplicitTags: true, Cases: []*model.Type{model.Prim("bool"), model.Prim("uint64")}, Tags: []string{"flag", "count"}}
+	p = onePkg(&model.Def{Kind: model.DAlias, Name: "Al0", Type: model.FixedVector(un2, 2)}, proto(model.Field{Name: "a", Type: model.Ref("Mdl", "Al0")}))
+	writeReplay(t, "C08", "python-union-nested-in-alias", "c08", "union nested in an alias body has no Python class", C08Case{Kind: "model", Pkg: p, Compile: true, Manifest: man})
+	un := &model.Type{Kind: model.KUnion, ExplicitTags: true, Cases: []*model.Type{nil, model.Prim("int32"), model.Prim("string")}, Tags: []string{"", "a", "b"}}
+	p = onePkg(&model.Def{Kind: model.DRecord, Name: "Gen0", TypeParams: []string{"T", "U"}, Fields: []model.Field{{Name: "t", Type: model.Param("T")}, {Name: "u", Type: model.Param("U")}}},
+		&model.Def{Kind: model.DRecord, Name: "Rec0", Fields: []model.Field{{Name: "g", Type: model.Ref("Mdl", "Gen0", model.Prim("float32"), un)}}},
+		proto(model.Field{Name: "r", Type: model.Ref("Mdl", "Rec0")}))
+	writeReplay(t, "C08", "python-union-as-generic-arg", "c08", "union as a generic argument", C08Case{Kind: "model", Pkg: p, Compile: true, Manifest: man})
+}
